@@ -214,6 +214,32 @@ pub fn cases(rng: &mut Rng, tier: &str) -> (Vec<Case>, bool) {
         w.op("snap");
         cases.push(Case { ops: w.ops, checks, tag: "program-run".into(), nontrivial: true, show: format!("seed {} then RUN of a program calling RND", seed) });
     }
+    // the target of an INPUT may draw numbers (a subscript with RND); a refused reply (?REENTER) runs the INPUT - and its
+    // subscript - again: every draw counts, none is taken back
+    for seed in [0u64, 1, 42, (1 << 33) - 1, 1 << 33, u64::MAX] {
+        for refused in [1usize, 2] {
+            let mut w = crate::prog::Walk::new(false, false);
+            w.op(&format!("seed {}", seed));
+            w.start("10 INPUT A(INT(RND(1) * 10))");
+            w.start("20 PRINT RND(1)");
+            w.start("30 PRINT RND(0)");
+            w.start("RUN");
+            let mut replies: Vec<String> = vec!["five".to_string(); refused];
+            replies.push("5".to_string());
+            let mut nr = 0;
+            let takes = w.drive(&replies, &mut nr, 30, false);
+            let mut state = (seed as u128 % M) as u64;
+            for _ in 0..(refused + 1) {
+                state = oracle_step(state, 1.0).1;
+            }
+            let (v, s2) = oracle_step(state, 1.0);
+            let _ = s2;
+            let want = hexs(&format!("{}\n", v.unwrap()));
+            // the value appears in some take, twice (RND(1) then RND(0))
+            let joined: Vec<String> = takes.iter().map(|t| t.to_string()).collect();
+            cases.push(Case { ops: w.ops, checks: vec![format!("some-take-is {} P:{}", joined.join(","), want)], tag: "input-subscript-draws".into(), nontrivial: true, show: format!("seed {} , {} refused replies, INPUT A(INT(RND(1)*10))", seed, refused) });
+        }
+    }
     (cases, false)
 }
 
